@@ -146,18 +146,15 @@ func (ex *Exec) shouldInline(fn *ssa.Function) bool {
 			}
 		}
 	}
-	if n > 60 {
-		return false
-	}
 	li := analyzeLoops(fn)
 	if len(li.heads) == 0 {
-		return true
+		return n <= 60
 	}
 	// small helpers with loops and no contract (typically extracted from a function under
 	// contract): inlined too, their loops cut with the invariant `true` and the modified set
 	// found by the scan, which over-approximates them. Listener notification helpers keep
 	// their old treatment (unmodelled, T5).
-	return n <= 40 && len(li.heads) == 1 && !strings.Contains(strings.ToLower(fn.Name()), "listener")
+	return n <= 200 && len(li.heads) == 1 && !strings.Contains(strings.ToLower(fn.Name()), "listener")
 }
 
 // callFunction: contract, library model, inlining or unmodelled call.
